@@ -560,6 +560,9 @@ pub struct PropertyColumn<Id: EntityId = NodeId> {
     zone_map: ZoneMapEntry,
     /// Whether zone map needs rebuild (after removes).
     zone_map_dirty: bool,
+    /// Whether the column holds values of kinds that do not compare with each other (the zone
+    /// map's min/max then describe only some of the values).
+    zone_map_mixed: bool,
     /// Compression mode for this column.
     compression_mode: CompressionMode,
     /// Compressed data (when compression is enabled and triggered).
@@ -576,6 +579,7 @@ impl<Id: EntityId> PropertyColumn<Id> {
             values: FxHashMap::default(),
             zone_map: ZoneMapEntry::new(),
             zone_map_dirty: false,
+            zone_map_mixed: false,
             compression_mode: CompressionMode::None,
             compressed: None,
             compressed_count: 0,
@@ -589,6 +593,7 @@ impl<Id: EntityId> PropertyColumn<Id> {
             values: FxHashMap::default(),
             zone_map: ZoneMapEntry::new(),
             zone_map_dirty: false,
+            zone_map_mixed: false,
             compression_mode: mode,
             compressed: None,
             compressed_count: 0,
@@ -643,6 +648,9 @@ impl<Id: EntityId> PropertyColumn<Id> {
         match &self.zone_map.min {
             None => self.zone_map.min = Some(value.clone()),
             Some(current) => {
+                if compare_values(value, current).is_none() {
+                    self.zone_map_mixed = true;
+                }
                 if compare_values(value, current) == Some(Ordering::Less) {
                     self.zone_map.min = Some(value.clone());
                 }
@@ -1007,8 +1015,9 @@ impl<Id: EntityId> PropertyColumn<Id> {
             CompareOp::Eq => self.zone_map.might_contain_equal(value),
             CompareOp::Ne => {
                 // Can only skip if all values are equal to the value
-                // (which means min == max == value)
+                // (which means min == max == value, and min/max cover every value)
                 match (&self.zone_map.min, &self.zone_map.max) {
+                    _ if self.zone_map_mixed => true,
                     (Some(min), Some(max)) => {
                         !(compare_values(min, value) == Some(Ordering::Equal)
                             && compare_values(max, value) == Some(Ordering::Equal))
@@ -1026,6 +1035,7 @@ impl<Id: EntityId> PropertyColumn<Id> {
     /// Rebuilds zone map from current values.
     pub fn rebuild_zone_map(&mut self) {
         let mut zone_map = ZoneMapEntry::new();
+        let mut mixed = false;
 
         for value in self.values.values() {
             zone_map.row_count += 1;
@@ -1039,6 +1049,9 @@ impl<Id: EntityId> PropertyColumn<Id> {
             match &zone_map.min {
                 None => zone_map.min = Some(value.clone()),
                 Some(current) => {
+                    if compare_values(value, current).is_none() {
+                        mixed = true;
+                    }
                     if compare_values(value, current) == Some(Ordering::Less) {
                         zone_map.min = Some(value.clone());
                     }
@@ -1057,6 +1070,7 @@ impl<Id: EntityId> PropertyColumn<Id> {
         }
 
         self.zone_map = zone_map;
+        self.zone_map_mixed = mixed;
         self.zone_map_dirty = false;
     }
 }
